@@ -38,9 +38,11 @@ VARIABLES
     enc,        \* link encrypted
     budget,     \* key distribution items that may still be sent for the last completed pairing
     dbLesc,     \* bond data base legitimately holds the LTK of a LESC pairing of this connection under (EDIV,Rand) = (0,0)
-    dbNew       \* bond data base legitimately holds the LTK created for distribution (legacy bonding) of this connection
+    dbNew,      \* bond data base legitimately holds the LTK created for distribution (legacy bonding) of this connection
+    last        \* status of the last exchange that completed on this connection: "no_key" (none yet) | "unauthenticated" |
+                \*   "authenticated"; survives later failed / aborted / unfinished exchanges
 
-vars == <<cfg, phase, fam, alg, mconf, ea, user, shown, pairedOk, authOk, enc, budget, dbLesc, dbNew>>
+vars == <<cfg, phase, fam, alg, mconf, ea, user, shown, pairedOk, authOk, enc, budget, dbLesc, dbNew, last>>
 
 Phases == {"idle", "leg_req", "leg_conf", "lesc_req", "lesc_keys", "lesc_conf", "lesc_rand", "completed"}
 Kinds  == {"legacy", "lesc", "combined"}
@@ -64,15 +66,18 @@ TypeOK ==
     /\ mconf \in {"none", "good", "bad"} /\ ea \in {"none", "good", "bad"} /\ user \in {"na", "pending", "yes", "no"}
     /\ shown \in BOOLEAN /\ pairedOk \in BOOLEAN /\ authOk \in BOOLEAN /\ enc \in BOOLEAN
     /\ budget \subseteq Items /\ dbLesc \in BOOLEAN /\ dbNew \in BOOLEAN
+    /\ last \in {"no_key", "unauthenticated", "authenticated"}
 
 InitWith(c) ==
     /\ cfg = c /\ phase = "idle" /\ fam = "none" /\ alg = "none" /\ mconf = "none" /\ ea = "none" /\ user = "na"
     /\ shown = FALSE /\ pairedOk = FALSE /\ authOk = FALSE /\ enc = FALSE /\ budget = {} /\ dbLesc = FALSE /\ dbNew = FALSE
+    /\ last = "no_key"
 
 \* a new connection (what link_layer does when a connection is requested)
 ResetTo(c) ==
     /\ cfg' = c /\ phase' = "idle" /\ fam' = "none" /\ alg' = "none" /\ mconf' = "none" /\ ea' = "none" /\ user' = "na"
     /\ shown' = FALSE /\ pairedOk' = FALSE /\ authOk' = FALSE /\ enc' = FALSE /\ budget' = {} /\ dbLesc' = FALSE /\ dbNew' = FALSE
+    /\ last' = "no_key"
 
 -----------------------------------------------------------------------------
 (* a Pairing Request: r = [io, oob, auth, maxkey, idist, rdist] *)
@@ -84,7 +89,7 @@ LescMethods   == LegacyMethods \cup {"numeric_comparison"}
 \* tracking helpers ------------------------------------------------------------
 ToIdle ==       \* Pairing Failed: the exchange is over, nothing of it may be used any more
     /\ phase' = "idle" /\ mconf' = "none" /\ ea' = "none" /\ pairedOk' = FALSE /\ authOk' = FALSE
-    /\ UNCHANGED <<cfg, fam, alg, user, shown, enc, budget, dbLesc, dbNew>>
+    /\ UNCHANGED <<cfg, fam, alg, user, shown, enc, budget, dbLesc, dbNew, last>>
         \* `user` is kept: the application may still hold the question and answer it later
 
 Stay == UNCHANGED vars
@@ -93,9 +98,11 @@ UserOk == alg # "numeric_comparison" \/ user = "yes"
 
 \* the peripheral sent its last message of the exchange (legacy: Srand, LESC: Eb): pairing is complete for it
 Complete(ok) ==
+    LET auth == IF fam = "legacy" THEN ok /\ alg # "just_works"
+                                  ELSE alg = "numeric_comparison" /\ user = "yes" /\ shown IN
     /\ phase' = "completed" /\ pairedOk' = ok
-    /\ authOk' = IF fam = "legacy" THEN ok /\ alg # "just_works"
-                                   ELSE alg = "numeric_comparison" /\ user = "yes" /\ shown
+    /\ authOk' = auth
+    /\ last' = IF auth THEN "authenticated" ELSE "unauthenticated"     \* whatever earlier exchanges achieved
     /\ budget' = IF cfg.bond /\ fam = "legacy" THEN Items ELSE budget
     \* a bonding manager stores the key of a completed pairing (slot 3 / slot 0) over whatever was there: the entry
     \* is legitimate afterwards iff this exchange was verified
@@ -122,7 +129,7 @@ Req(r, o, rauth, a) ==
               /\ fam' = IF lesc THEN "lesc" ELSE "legacy"
               /\ alg' = a /\ mconf' = "none" /\ ea' = "none" /\ user' = "na" /\ shown' = FALSE
               /\ pairedOk' = FALSE /\ authOk' = FALSE
-              /\ UNCHANGED <<cfg, enc, budget, dbLesc, dbNew>>
+              /\ UNCHANGED <<cfg, enc, budget, dbLesc, dbNew, last>>
          [] o = "failed" -> ToIdle
          [] OTHER -> Stay
 
@@ -149,23 +156,23 @@ Pdu(op, lc, label, o, sh) ==
     /\ CASE o = "failed" -> ToIdle
          [] o = "confirm" /\ legConfirm ->
               /\ phase' = "leg_conf" /\ mconf' = IF good THEN "good" ELSE "bad"
-              /\ UNCHANGED <<cfg, fam, alg, ea, user, shown, pairedOk, authOk, enc, budget, dbLesc, dbNew>>
+              /\ UNCHANGED <<cfg, fam, alg, ea, user, shown, pairedOk, authOk, enc, budget, dbLesc, dbNew, last>>
          [] o = "random" /\ fam = "legacy" /\ phase \in {"leg_req", "leg_conf"} ->
               Complete(legRandom /\ mconf = "good" /\ good)
          [] o = "pubkey" /\ pubKey ->
               /\ phase' = "lesc_keys"
-              /\ UNCHANGED <<cfg, fam, alg, mconf, ea, user, shown, pairedOk, authOk, enc, budget, dbLesc, dbNew>>
+              /\ UNCHANGED <<cfg, fam, alg, mconf, ea, user, shown, pairedOk, authOk, enc, budget, dbLesc, dbNew, last>>
          [] o = "random" /\ lescRandom ->
               /\ phase' = "lesc_rand"
               /\ shown' = (alg = "numeric_comparison" /\ sh)
               /\ user' = IF alg = "numeric_comparison" /\ sh
                          THEN (CASE cfg.sync = -1 -> "pending" [] cfg.sync = 1 -> "yes" [] OTHER -> "no")
                          ELSE "na"
-              /\ UNCHANGED <<cfg, fam, alg, mconf, ea, pairedOk, authOk, enc, budget, dbLesc, dbNew>>
+              /\ UNCHANGED <<cfg, fam, alg, mconf, ea, pairedOk, authOk, enc, budget, dbLesc, dbNew, last>>
          [] o = "dhkey" -> Complete(dhkey /\ good /\ UserOk)
          [] o = "none" /\ dhkey ->
               /\ ea' = IF good THEN "good" ELSE "bad"
-              /\ UNCHANGED <<cfg, phase, fam, alg, mconf, user, shown, pairedOk, authOk, enc, budget, dbLesc, dbNew>>
+              /\ UNCHANGED <<cfg, phase, fam, alg, mconf, user, shown, pairedOk, authOk, enc, budget, dbLesc, dbNew, last>>
          [] OTHER -> Stay
 
 (* the link layer polls the security manager for output *)
@@ -180,23 +187,23 @@ Poll(o) ==
     /\ E("C34") => (o \in Items => enc /\ o \in budget)
     /\ CASE o = "confirm" /\ phase = "lesc_keys" ->
               /\ phase' = "lesc_conf"
-              /\ UNCHANGED <<cfg, fam, alg, mconf, ea, user, shown, pairedOk, authOk, enc, budget, dbLesc, dbNew>>
+              /\ UNCHANGED <<cfg, fam, alg, mconf, ea, user, shown, pairedOk, authOk, enc, budget, dbLesc, dbNew, last>>
          [] o = "dhkey"  -> Complete(phase = "lesc_rand" /\ ea = "good" /\ UserOk)
          [] o = "failed" -> ToIdle
          [] o \in Items  ->
               /\ budget' = budget \ {o}
-              /\ UNCHANGED <<cfg, phase, fam, alg, mconf, ea, user, shown, pairedOk, authOk, enc, dbLesc, dbNew>>
+              /\ UNCHANGED <<cfg, phase, fam, alg, mconf, ea, user, shown, pairedOk, authOk, enc, dbLesc, dbNew, last>>
          [] OTHER -> Stay
 
 (* the user answers the numeric comparison question (an answer nobody waits for changes nothing) *)
 User(answer) ==
     /\ user' = IF user = "pending" THEN (IF answer THEN "yes" ELSE "no") ELSE user
-    /\ UNCHANGED <<cfg, phase, fam, alg, mconf, ea, shown, pairedOk, authOk, enc, budget, dbLesc, dbNew>>
+    /\ UNCHANGED <<cfg, phase, fam, alg, mconf, ea, shown, pairedOk, authOk, enc, budget, dbLesc, dbNew, last>>
 
 (* the link layer starts / stops encryption *)
 Enc(on) ==
     /\ enc' = on
-    /\ UNCHANGED <<cfg, phase, fam, alg, mconf, ea, user, shown, pairedOk, authOk, budget, dbLesc, dbNew>>
+    /\ UNCHANGED <<cfg, phase, fam, alg, mconf, ea, user, shown, pairedOk, authOk, budget, dbLesc, dbNew, last>>
 
 (* The bond data base is an object of the application (environment): at any time it may hold entries for any       *)
 (* (EDIV,Rand) slot - (0,0) included, that is where LESC bonds live - for this peer and for other peers, put there  *)
@@ -208,7 +215,7 @@ Db(peer, s, on) ==
     IF peer = 0
     THEN /\ cfg' = [cfg EXCEPT !.pre = IF on THEN @ \cup {s} ELSE @ \ {s}]
          /\ dbLesc' = (dbLesc /\ s # 0) /\ dbNew' = (dbNew /\ s # 3)
-         /\ UNCHANGED <<phase, fam, alg, mconf, ea, user, shown, pairedOk, authOk, enc, budget>>
+         /\ UNCHANGED <<phase, fam, alg, mconf, ea, user, shown, pairedOk, authOk, enc, budget, last>>
     ELSE Stay
 
 (* the link layer looks up a key (LL_ENC_REQ) for slot `which`.                                                    *)
@@ -240,6 +247,14 @@ Find(which, found, kid, kslot, dbsame) ==
     /\ Stay
 
 \* what has to be reported as pairing status (C35)
+\* "... authenticated key exactly when the completed pairing exchange authenticated the peer, ... unauthenticated key
+\* exactly after Just Works, ... no key when no pairing completed": several exchanges may run on one connection; the
+\* status is that of the LAST completed exchange alone - an authenticated exchange followed by a completed Just Works
+\* exchange is unauthenticated (and vice versa), whatever happened in between. While the last exchange is not completed
+\* (new request in progress, failed, aborted) after an earlier one did complete, the property is silent: both "no_key"
+\* (what the strict reading ExpStatus says) and the status of the last completed exchange are accepted, nothing stronger.
+AllowedStatus == IF phase = "completed" THEN { IF authOk THEN "authenticated" ELSE "unauthenticated" }
+                                        ELSE { "no_key", last }
 ExpStatus == IF phase # "completed" THEN "no_key"
              ELSE IF authOk THEN "authenticated" ELSE "unauthenticated"
 
@@ -283,4 +298,5 @@ StatusSound == /\ authOk => phase = "completed" /\ alg # "just_works"
                /\ (authOk /\ fam = "legacy") => pairedOk
                /\ (authOk /\ fam = "lesc") => alg = "numeric_comparison" /\ user = "yes" /\ shown
                /\ (ExpStatus = "no_key") = (phase # "completed")
+               /\ ExpStatus \in AllowedStatus /\ (phase = "completed" => last = ExpStatus)
 =============================================================================
